@@ -5,6 +5,7 @@ def dispatch (line : String) : String :=
   match (line.trimAscii.toString.splitOn " ") with
   | "wc" :: args => handleWc args
   | "wl" :: args => handleWl args
+  | "wof" :: args => handleWof args
   | _ => "bad-op"
 
 partial def loop (h : IO.FS.Stream) (out : IO.FS.Stream) : IO Unit := do
